@@ -175,6 +175,21 @@ def L_base(name):
     return lb(name)
 
 
+_C17K = []
+
+
+def c17_known():
+    """(label, payload length class) of the open C17 findings in known_findings.json."""
+    if not _C17K:
+        ks = set()
+        for k in engine.load_known("C17"):
+            parts = k.split("|")
+            if parts[0] == "setpoll_resolves_wrong_mode" and len(parts) >= 3:
+                ks.add((parts[1], parts[2].replace("len=", "")))
+        _C17K.append(ks)
+    return _C17K[0]
+
+
 def consequence(e, pbf, counts, out):
     """Nominal build + parse in the same mode; one attribute per distinct named field."""
     label = e.label
@@ -196,6 +211,15 @@ def consequence(e, pbf, counts, out):
         out.append((f"nominal_instance_cannot_be_parsed|{label}|pbf={int(pbf)}|{type(ex).__name__}", str(ex)))
         return
     payload = frame[6:-2]
+    # a SET / POLL definition is also usable through the documented auto-detecting mode (msgmode=SETPOLL): the nominal
+    # instance must come back in its own mode (the cases the SETPOLL heuristic is known to mis-resolve are C17's findings)
+    if e.mode in (SET, POLL) and (label, "0" if not payload else ("1-2" if len(payload) <= 2 else "n")) not in c17_known():
+        try:
+            m5 = UBXReader.parse(frame, msgmode=3, parsebitfield=pbf)
+            if m5.msgmode != e.mode or [k for k in m5.__dict__ if not k.startswith("_")] != [k for k in m2.__dict__ if not k.startswith("_")]:
+                out.append((f"nominal_instance_unusable_under_SETPOLL|{label}|pbf={int(pbf)}", f"mode {m5.msgmode}, {len(m5.__dict__)} attributes"))
+        except Exception as ex:  # noqa: BLE001
+            out.append((f"nominal_instance_unusable_under_SETPOLL|{label}|pbf={int(pbf)}|{type(ex).__name__}", str(ex)))
     # every declared attribute can be SUPPLIED by name: the nominal instance rebuilt from all of its own attributes
     # (definitions with high-precision companions are left to C03: their parsed value merges two fields)
     if kwroute is not None and len(payload) > 0 and not any(str(k).startswith("_HP") for k in e.pdict):
